@@ -102,6 +102,7 @@ template <class K> struct Slot {
     Workspace ws;
     int last_cls = XC_NONE;
     double last_thresh = 1.0;
+    bool glu_valid = false;       // the slot's GlobalLU_t describes the current L and U (not after the simple driver, which keeps its own)
     bool lu_mc64 = false;         // factors come from gsisx with an MC64 row permutation folded into perm_r
     int pat_symmode = 0;          // SymmetricMode the remembered ordering / etree was computed for
     bool lu_nostruct = false;     // factors of an incomplete LU that re-used a row permutation: structure not judged (C15's content)
@@ -126,6 +127,25 @@ template <class K> struct World {
     // ------------------------------------------------------------ helpers
     template <class T> T *cmalloc(size_t n) { return (T *)rt_caller_malloc((n ? n : 1) * sizeof(T)); }
     void viol(OpResult &r, const std::string &oracle, const std::string &detail) { r.violations.push_back(oracle + "|" + detail); }
+    // Output-only arguments hold whatever the caller's variables happen to contain. In the clean pass that is what earlier calls left
+    // there; in the dirty passes (fresh-memory garbage mode of the task) it is junk of that mode: 0xFF.., 0xA5.., the NaN/huge-index
+    // pattern, or - random / stale modes - a valid but unrelated permutation. A routine that reads such an argument shows up as a
+    // clean/dirty (C06, C19, C07, C08) or solo/history (C09) difference, or as a sanitizer report.
+    void junk_bytes(void *p, size_t bytes) {
+        unsigned char *c = (unsigned char *)p;
+        switch (ctx->garbage) {
+        case G_ZERO: return;
+        case G_FF: memset(c, 0xFF, bytes); return;
+        case G_NAN: { static const unsigned char pat[4] = {0xAD, 0xDE, 0xF4, 0x7F}; for (size_t i = 0; i < bytes; i++) c[i] = pat[i & 3]; return; }
+        default: memset(c, 0xA5, bytes); return;
+        }
+    }
+    void junk_perm(int *p, int n, uint64_t seed) {
+        if (ctx->garbage == G_ZERO || n <= 0) return;
+        if (ctx->garbage == G_RANDOM || ctx->garbage == G_STALE) { Rng g(mix3(seed, 0x0BAD, (uint64_t)n)); for (int i = 0; i < n; i++) p[i] = i; for (int i = n - 1; i > 0; i--) std::swap(p[i], p[(int)g.below((uint64_t)i + 1)]); }
+        else junk_bytes(p, (size_t)n * sizeof(int));
+    }
+    void junk_lu_objects(Slot<K> &s, bool glu = true) { if (ctx->garbage == G_ZERO) return; junk_bytes(&s.L, sizeof s.L); junk_bytes(&s.U, sizeof s.U); if (glu) junk_bytes(&s.Glu, sizeof s.Glu); }
 
     void set_options(const Op &o, superlu_options_t &opt, bool ilu) {
         if (ilu) ilu_set_default_options(&opt); else set_default_options(&opt);
@@ -422,7 +442,7 @@ template <class K> struct World {
         int n = s.n; bool query = (o.lwork == -1);
         // ---- documented preconditions of the Fact modes (the history model) ----
         if (o.fact == SamePattern && !(s.have_pattern && s.last_cls != XC_NOSPACE)) { r.skipped = true; r.skip_reason = "SamePattern without a remembered ordering"; return; }
-        if (o.fact == SamePattern_SameRowPerm && !(s.lu_valid && s.lu_ilu == ilu)) { r.skipped = true; r.skip_reason = "SameRowPerm without valid factors of the same kind"; return; }
+        if (o.fact == SamePattern_SameRowPerm && !query && !(s.lu_valid && s.lu_ilu == ilu && s.glu_valid)) { r.skipped = true; r.skip_reason = "SameRowPerm without valid factors of the same kind"; return; }
         if (o.fact == FACTORED && !(s.lu_valid && s.lu_ilu == ilu)) { r.skipped = true; r.skip_reason = "FACTORED without valid factors"; return; }
         // incomplete LU re-using the row permutation together with MC64: perm_r then mixes two row numberings (MC64's fold); what
         // that combination should return is the content of C15 (not claimed)
@@ -441,7 +461,7 @@ template <class K> struct World {
             const NCformat *As = (const NCformat *)s.A.Store;
             saveA.assign((unsigned char *)As->nzval, (unsigned char *)As->nzval + (size_t)s.nnz * sizeof(S));
             saveR.assign(s.Rs, s.Rs + n); saveC.assign(s.Cs, s.Cs + n); savePc.assign(s.perm_c, s.perm_c + n); saveEt.assign(s.etree, s.etree + n); savePr.assign(s.perm_r, s.perm_r + n);
-            if (o.fact == SamePattern_SameRowPerm && !s.lu_valid) a.opt.Fact = DOFACT;
+            if (o.fact == SamePattern_SameRowPerm && !(s.lu_valid && s.lu_ilu == ilu && s.glu_valid)) a.opt.Fact = DOFACT;
         } else if (o.fact != FACTORED) {
             if (o.fact != SamePattern_SameRowPerm) destroy_lu(s);
             if (!o.re.empty() && (long)o.re.size() == s.nnz) { s.orig.re = o.re; s.orig.im = o.im.empty() ? std::vector<double>(o.re.size(), 0.0) : o.im; }
@@ -451,6 +471,11 @@ template <class K> struct World {
             if (o.fact == SamePattern_SameRowPerm) { o.lwork = s.lu_lwork; o.align = s.ws.align; }
             else if (o.lwork > 0) s.ws.alloc(o.lwork, o.align, o.wsgarbage, wsrng);
             else s.ws.release();
+            // what this call only writes: perm_r and the L, U, Glu objects unless they are handed back, perm_c and the etree of a fresh
+            // ordering, the scale factors
+            if (o.fact != SamePattern_SameRowPerm) { junk_perm(s.perm_r, n, o.rhs_seed); junk_lu_objects(s); }
+            if (o.fact == DOFACT) { if (o.colperm != MY_PERMC) junk_perm(s.perm_c, n, o.rhs_seed ^ 1); junk_perm(s.etree, n, o.rhs_seed ^ 2); }
+            junk_bytes(s.Rs, n * sizeof(R)); junk_bytes(s.Cs, n * sizeof(R));
         } else { o.lwork = s.lu_lwork; }
         if (o.colperm == MY_PERMC && o.fact == DOFACT) make_permc(o.permc_seed, n, s.perm_c);
         a.work = (o.lwork > 0) ? (void *)s.ws.work : nullptr; a.lwork = (int_t)o.lwork;
@@ -505,7 +530,7 @@ template <class K> struct World {
         } else if (factored_now) {
             s.last_cls = r.cls; s.last_thresh = o.thresh; s.lu_mc64 = ilu && o.rowperm != NOROWPERM;
             if (r.cls == XC_OK || r.cls == XC_ILLCOND || r.cls == XC_SINGULAR) {
-                s.haveLU = true; s.lu_lwork = o.lwork; s.lu_ilu = ilu; s.have_pattern = true;
+                s.haveLU = true; s.lu_lwork = o.lwork; s.lu_ilu = ilu; s.have_pattern = true; s.glu_valid = true;
                 s.lu_valid = (r.cls != XC_SINGULAR) || ilu;
                 have_factors = true;
                 r.expansions = a.stat.expansions;
@@ -717,6 +742,7 @@ template <class K> struct World {
         write_values(s, s.orig.re, s.orig.im); s.equed[0] = 'N';
         DriverArgs a; memset(&a.B, 0, sizeof a.B); a.s = &s; a.o = &o; set_options(o, a.opt, false);
         a.opt.Fact = DOFACT; a.opt.Trans = NOTRANS;
+        junk_perm(s.perm_r, n, o.rhs_seed); junk_lu_objects(s, false); if (o.colperm != MY_PERMC) junk_perm(s.perm_c, n, o.rhs_seed ^ 1);
         if (o.colperm == MY_PERMC) make_permc(o.permc_seed, n, s.perm_c);
         a.nrhs = o.nrhs; a.ld = n + o.ldpad; a.b = cmalloc<S>((size_t)a.ld * std::max(1, a.nrhs));
         make_rhs(o, n, a.nrhs, a.ld, a.b);
@@ -734,6 +760,7 @@ template <class K> struct World {
         if (r.cls == XC_ARGERR) viol(r, "argerror", "valid call rejected with info " + std::to_string(r.info));
         s.last_cls = r.cls; s.last_thresh = o.thresh;
         bool have = (r.cls == XC_OK || r.cls == XC_SINGULAR);
+        s.glu_valid = false;
         if (have) { s.haveLU = true; s.lu_lwork = 0; s.lu_ilu = false; s.lu_valid = (r.cls == XC_OK); s.have_pattern = false; r.expansions = a.stat.expansions; }
         Snapshot &sn = r.snap; std::string serr;
         if (cfg.capture) { sn.val("info", r.cls == XC_NOSPACE ? (long)-1 : r.info); sn.val("cls", r.cls); }
@@ -827,7 +854,7 @@ template <class K> struct World {
         // the etree (no get_perm_c), SamePattern_SameRowPerm also hands L, U, Glu and perm_r back to the factor routine
         int fact = (o.fact == SamePattern || o.fact == SamePattern_SameRowPerm) ? o.fact : DOFACT;
         if (fact == SamePattern && !(s.have_pattern && s.last_cls != XC_NOSPACE)) { r.skipped = true; r.skip_reason = "SamePattern without a remembered ordering"; return; }
-        if (fact == SamePattern_SameRowPerm && (query || s.lu_mc64 || !(s.lu_valid && s.lu_ilu == ilu && s.have_pattern))) { r.skipped = true; r.skip_reason = "SameRowPerm without valid factors of the same kind"; return; }
+        if (fact == SamePattern_SameRowPerm && (query || s.lu_mc64 || !(s.lu_valid && s.lu_ilu == ilu && s.have_pattern && s.glu_valid))) { r.skipped = true; r.skip_reason = "SameRowPerm without valid factors of the same kind"; return; }
         if (fact != DOFACT) o.symmode = s.pat_symmode;
         bool readopt = (fact == SamePattern_SameRowPerm);
         if (!readopt) destroy_lu(s);
@@ -838,6 +865,8 @@ template <class K> struct World {
         std::vector<int> prev_permr; if (readopt) prev_permr.assign(s.perm_r, s.perm_r + m);
         PipeArgs a; memset(&a.AC, 0, sizeof a.AC); a.haveAC = false; a.s = &s; a.o = &o; a.ilu = ilu; set_options(o, a.opt, ilu); a.opt.Fact = (fact_t)fact;
         if (fact == DOFACT) s.pat_symmode = o.symmode;
+        if (!readopt) { junk_perm(s.perm_r, m, o.rhs_seed); junk_lu_objects(s); }
+        if (fact == DOFACT) { if (o.colperm != MY_PERMC) junk_perm(s.perm_c, n, o.rhs_seed ^ 1); junk_perm(s.etree, n, o.rhs_seed ^ 2); }
         if (o.colperm == MY_PERMC && fact == DOFACT) make_permc(o.permc_seed, n, s.perm_c);
         a.work = (o.lwork > 0) ? (void *)s.ws.work : nullptr; a.lwork = (int_t)o.lwork; a.info = -777; a.info2 = -777; r.lwork_used = o.lwork;
         StatInit(&a.stat);
@@ -855,7 +884,7 @@ template <class K> struct World {
         bool have = (r.cls == XC_OK || r.cls == XC_SINGULAR);
         s.last_cls = r.cls; s.last_thresh = o.thresh;
         s.lu_mc64 = false;
-        if (have) { s.haveLU = true; s.lu_lwork = o.lwork; s.lu_ilu = ilu; s.lu_valid = (r.cls == XC_OK) || ilu; s.have_pattern = true; r.expansions = a.stat.expansions; s.lu_nostruct = (ilu && readopt); }
+        if (have) { s.glu_valid = true; s.haveLU = true; s.lu_lwork = o.lwork; s.lu_ilu = ilu; s.lu_valid = (r.cls == XC_OK) || ilu; s.have_pattern = true; r.expansions = a.stat.expansions; s.lu_nostruct = (ilu && readopt); }
         else if (r.cls == XC_NOSPACE) drop_lu_after_nospace(s, readopt);
         if (readopt && have) r.permr_changed = memcmp(prev_permr.data(), s.perm_r, m * sizeof(int)) != 0;
         if (ilu && r.cls == XC_SINGULAR) r.cls = XC_OK;
